@@ -44,7 +44,9 @@ func cliEvery(tier string) int {
 var Check = &run.Check{
 	ID:    "C20",
 	Level: "exploration",
-	Rule: "case = one generated file (+1-2 sibling files in the same directory in 1/4 of the cases; ids make every planted name unique within the case); " +
+	Rule: "case = one generated file (+1-2 sibling files in 1/3 of the cases; ids make every planted name unique within the case, except that in 2/3 of the multi-file cases the files sit in different sub-directories " +
+		"and the second file declares one struct/interface/exported function resp. class/capitalised function under a name the first file declares too, with members of its own - Go: same package clause, e.g. two `package main`, in 2/3 of these; " +
+		"the flattened model then has to list such a name as often as it is declared, each entry with its own members); " +
 		"even index: Python module (imports `import a`, `import a.b.c`, `import a.b as c`, `import a, b`, `from a import b, c`, `from a import b as c`, `from a import (b, c,)` on one or several lines, `from . import x`, `from ..p import x`, `from a import *`; " +
 		"0-2 decorated classes with 0-3 decorated methods, decorated/async functions, nested defs up to depth 2, class attributes, docstrings and strings that look like declarations, comments, multi-line bracketed statements, indent 2/4/tab, CRLF, no final newline). " +
 		"Modules stay within 30 lexer events (logical lines + INDENT + DEDENT); 1 module in 40 is 'large' (median 69, up to ~300 events; either structured or 33-70 one-line declarations) and is parsed only in fresh child processes. " +
@@ -54,7 +56,7 @@ var Check = &run.Check{
 		"Observed: pyapp.PythonIdentApp.Analysis, goapp.GoIdentApp.Analysis or ast_go.CocagoParser.ProcessString per file; analysis.CommonAnalysis on the directory; for every 4th (quick) / 8th (thorough) case of each language the real mains `coca-python analysis -p` / `coca-golang analysis -p` (coca_reporter/pydeps.json, godeps.json). " +
 		"non-trivial = Python: a class with a method + a decorator + an import; Go: >= 2 type declarations + a method + an asserted call statement; distinct = hash of the structural shape of the primary file (kinds, counts, order, layout; no names) and the number of files",
 	Assumptions: []string{
-		"every planted name is unique within a case (ids), so one observation matches at most one planted event",
+		"every planted name is unique within a file (ids), so one observation matches at most one planted event; a type/function name deliberately declared in two files of a case is demanded with multiset semantics in the flattened model (CommonAnalysis, *deps.json): as many entries as declarations, entries matched to declarations by their (unique) members",
 		"methods are declared after their receiver type in the same file (methods before the type are not generated)",
 		"nested defs may additionally be listed anywhere; unplanted names are not counted against the model",
 		"only calls written as a statement with a package qualifier or a receiver/parameter variable are asserted; deferred, unqualified, right-hand-side and returned calls are generated but free",
@@ -263,6 +265,9 @@ func inDir(dir string, f func()) {
 
 var subDirs = []string{"", "", "app", "pkg/core", "internal/svc/store"}
 
+// directories of the files of a case in which two files declare the same name
+var shareDirs = []string{"cmd/server", "cmd/worker", "tools/gen"}
+
 type fileText struct {
 	Name string `json:"name"`
 	Text string `json:"text"`
@@ -297,23 +302,34 @@ func pyCase(c *run.Ctx, o *run.Outcome, useCLI bool) {
 	r := c.Rng
 	large := r.Chance(1, 40)
 	nFiles := 1
-	if r.Chance(1, 4) {
+	if r.Chance(1, 3) {
 		nFiles = r.Range(2, 3)
 	}
+	// same-name dimension: in 2/3 of the multi-file cases the files live in different sub-directories and the second
+	// one declares a class / capitalised function under a name the first one declares too
+	share := nFiles >= 2 && r.Chance(2, 3)
 	sub := r.Pick(subDirs)
 	var mods []*gopygen.PyModule
 	for i := 0; i < nFiles; i++ {
-		name := filepath.Join(sub, fmt.Sprintf("%s_%d.py", r.Pick([]string{"views", "models", "service", "util", "handlers"}), i))
+		dir := sub
+		if share {
+			dir = shareDirs[i]
+		}
+		name := filepath.Join(dir, fmt.Sprintf("%s_%d.py", r.Pick([]string{"views", "models", "service", "util", "handlers"}), i))
 		mods = append(mods, gopygen.GenPy(r.Fork(), name, large && i == 0, i*1000))
 	}
 	// ids are offset per file (i*1000), so names cannot clash between the files of a case; kept as a guard
 	mods = dropClashingPy(mods)
+	var sharedNames []string
+	if share && len(mods) >= 2 {
+		sharedNames = gopygen.SharePyNames(r.Fork(), mods[0], mods[1])
+	}
 	o.Count("py_cases", 1)
 	if large {
 		o.Count("py_large_modules_generated", 1)
 	}
 
-	witness := map[string]interface{}{"lang": "python"}
+	witness := map[string]interface{}{"lang": "python", "names_declared_in_two_files": sharedNames}
 	o.Witness = witness
 	var files []fileText
 	var accepted []*gopygen.PyModule
@@ -356,7 +372,11 @@ func pyCase(c *run.Ctx, o *run.Outcome, useCLI bool) {
 	if prim.LexEvents > gopygen.PySmallBudget+1 {
 		o.Count("py_accepted_with_more_than_31_lexer_events", 1)
 	}
-	o.Shape = run.ShapeHash("py", prim.Shape(), len(accepted))
+	o.Shape = run.ShapeHash("py", prim.Shape(), len(accepted), len(sharedNames))
+	if len(sharedNames) > 0 && len(accepted) == len(mods) {
+		o.Count("dim_py_cases_with_same_name_in_two_files", 1)
+		o.Count("dim_py_names_declared_in_two_files", len(sharedNames))
+	}
 	o.NonTrivial = pyNonTrivial(prim)
 	o.Count("py_modules", len(accepted))
 	o.Count("py_lexer_events", prim.LexEvents)
@@ -608,14 +628,23 @@ func goNames(f *gopygen.GoFile) []string {
 func goCase(c *run.Ctx, o *run.Outcome, useCLI bool) {
 	r := c.Rng
 	nFiles := 1
-	if r.Chance(1, 4) {
+	if r.Chance(1, 3) {
 		nFiles = r.Range(2, 3)
 	}
+	// same-name dimension: in 2/3 of the multi-file cases the files live in different sub-directories and the second
+	// one declares a struct / interface / exported function under a name the first one declares too (with its own
+	// members); both files carry the same package clause (e.g. two `package main` commands) in 2/3 of these
+	share := nFiles >= 2 && r.Chance(2, 3)
+	samePkg := r.Chance(2, 3)
 	sub := r.Pick(subDirs)
 	var gofiles []*gopygen.GoFile
 	seen := map[string]bool{}
 	for i := 0; i < nFiles; i++ {
-		name := filepath.Join(sub, fmt.Sprintf("%s_%d.go", r.Pick([]string{"order", "store", "handler", "model", "svc"}), i))
+		dir := sub
+		if share {
+			dir = shareDirs[i]
+		}
+		name := filepath.Join(dir, fmt.Sprintf("%s_%d.go", r.Pick([]string{"order", "store", "handler", "model", "svc"}), i))
 		f := gopygen.GenGo(r.Fork(), name, i*1000)
 		clash := false
 		for _, n := range goNames(f) {
@@ -631,8 +660,12 @@ func goCase(c *run.Ctx, o *run.Outcome, useCLI bool) {
 		}
 		gofiles = append(gofiles, f)
 	}
+	var sharedNames []string
+	if share && len(gofiles) >= 2 {
+		sharedNames = gopygen.ShareGoNames(r.Fork(), gofiles[0], gofiles[1], samePkg)
+	}
 	o.Count("go_cases", 1)
-	witness := map[string]interface{}{"lang": "go"}
+	witness := map[string]interface{}{"lang": "go", "names_declared_in_two_files": sharedNames}
 	o.Witness = witness
 	var files []fileText
 	for _, f := range gofiles {
@@ -646,7 +679,14 @@ func goCase(c *run.Ctx, o *run.Outcome, useCLI bool) {
 	}
 	witness["files"] = files
 	prim := gofiles[0]
-	o.Shape = run.ShapeHash("go", prim.Shape(), len(gofiles))
+	o.Shape = run.ShapeHash("go", prim.Shape(), len(gofiles), len(sharedNames))
+	if len(sharedNames) > 0 {
+		o.Count("dim_go_cases_with_same_name_in_two_files", 1)
+		o.Count("dim_go_names_declared_in_two_files", len(sharedNames))
+		if gofiles[0].Pkg == gofiles[1].Pkg {
+			o.Count("dim_go_same_name_and_same_package_clause", 1)
+		}
+	}
 	o.NonTrivial = goNonTrivial(prim)
 	o.Count("go_files", len(gofiles))
 	goDimensions(o, prim)
